@@ -478,6 +478,16 @@ CLAIMED["C18"]["text"] += (" Round 7: the PEAK value field is exact below FLT_MI
                             "maxima (all six containers, both encodings, doubles between two subnormal floats, FLT_MIN as boundary) run on every seed; nothing below FLT_MIN is waived any more.")
 
 
+# ---- round 8 (worker wbridge2): the remaining instances of the write-side bridge; the exact sample-period rate clause (appended) ----
+_R8_WBRIDGE2 = (" Round 8 (write-side bridge, remaining models): <x>_session_accepted for PAF (PCM_S8 / 16), IRCAM, NIST, MAT5, VOC (Laws directly: terminator byte) and SVX (given the reader fact SvxReopens) "
+                "in SfProps/C04Bridge2.lean, IMA ADPCM (WAV / W64 / AIFF layouts) + MS ADPCM (adpcm_block_agrees: the predicate's block table = geoOf for every rate) and OKI/VOX in SfProps/C07Bridge2.lean; "
+                "BlockFacts.c01 = lossy pair OR roundtrip fact (the C01 clause of judge for lossless block codecs). The rate clause of the predicate for the sample-period class (HTK 100 ns, SDS 1 ns in 21 bits) is EXACT: "
+                "AbsWrite.periodQuant = u / (u / sr) where the period fits the field, any positive rate elsewhere (vlib/geometry.py rate_ok likewise); htk_rate_exact_accepted for EVERY rate, htk_rate_exact_only, "
+                "rateOk_period_iff (SfProofs/AbsWriteRate.lean); the first-order tolerance of before is htk_rate_tolerance_old_rule; HTK / SDS campaign rates include 3.2 - 10 MHz, 476 / 477 Hz, 1 GHz + 1.")
+for _p in ("C01", "C04", "C07", "C11"):
+    CLAIMED[_p]["text"] += _R8_WBRIDGE2
+
+
 def main():
     checks = []
     for p in PROPS:
